@@ -22,11 +22,11 @@ import (
 type Ty string
 
 const (
-	TU64   Ty = "BitVec 64"        // uint64 and int64 (ops chosen by signedness flag)
-	TI64   Ty = "BitVec 64 /-i-/"  // int64
+	TU64   Ty = "BitVec 64"       // uint64 and int64 (ops chosen by signedness flag)
+	TI64   Ty = "BitVec 64 /-i-/" // int64
 	TU32   Ty = "BitVec 32"
-	TF64   Ty = "BitVec 64 /-f-/"  // float64 bit pattern
-	TF32   Ty = "BitVec 32 /-f-/"  // float32 bit pattern
+	TF64   Ty = "BitVec 64 /-f-/" // float64 bit pattern
+	TF32   Ty = "BitVec 32 /-f-/" // float32 bit pattern
 	TByte  Ty = "Byte"
 	TInt   Ty = "Nat"
 	TBool  Ty = "Bool"
@@ -49,28 +49,30 @@ func leanTy(t Ty) string {
 }
 
 type spec struct {
-	File    string   // path relative to repo
-	Func    string   // function or method name
-	Recv    string   // receiver type name for methods ("" for functions)
-	Module  string   // generated module (file) name
-	Fields  []string // receiver fields used, turned into leading parameters: "name:type"
-	OutPtr  string   // name of a pointer out-parameter (its pointee is the result)
-	FloatSym bool    // float32 results are symbolic float expressions (Go.FExpr)
+	File     string   // path relative to repo
+	Func     string   // function or method name
+	Recv     string   // receiver type name for methods ("" for functions)
+	Module   string   // generated module (file) name
+	Fields   []string // receiver fields used, turned into leading parameters: "name:type"
+	OutPtr   string   // name of a pointer out-parameter (its pointee is the result)
+	FloatSym bool     // float32 results are symbolic float expressions (Go.FExpr)
 	// the extended subset (ext.go)
-	Ext     bool         // translate with the extended translator
-	Structs []structSpec // struct types the function uses
-	Oracles []string     // function-typed parameters that are effectful callbacks
-	Consts  []constSpec  // package-level constants / error values the function mentions
-	Prims   []string     // library functions kept abstract as leading parameters (sortFunc)
-	WrapInt bool         // int / int64 `+ - *` wrap at 64 bits (Go.wrap64) instead of assuming no overflow
-	Frag    *fragSpec    // translate a run of statements of the function as a function of its own
-	Name    string       // Lean name (default: the Go name, Recv_Func for methods)
-	Uses    []useSpec    // functions of other generated modules it calls
-	Opaque  []string     // "GoType=LeanName": types whose values are only passed on; each is a Lean type parameter
-	Methods []string     // "LeanName.Method=[mut ]func(..) R": abstract methods of opaque types (mut: returns (R, new value))
-	FloatAbs string      // float32 is this Lean type parameter with a decidable `<` (only < and > are translated)
-	FloatLE  bool        // … and a decidable `≤` (<= and >= are translated too)
-	CapVars  []string    // "v=c": cap(v) of the slice variable v is the int variable c; `v = append(v, ..)` updates c
+	Ext      bool         // translate with the extended translator
+	Structs  []structSpec // struct types the function uses
+	Oracles  []string     // function-typed parameters that are effectful callbacks
+	Consts   []constSpec  // package-level constants / error values the function mentions
+	Prims    []string     // library functions kept abstract as leading parameters (sortFunc)
+	WrapInt  bool         // int / int64 `+ - *` wrap at 64 bits (Go.wrap64) instead of assuming no overflow
+	Frag     *fragSpec    // translate a run of statements of the function as a function of its own
+	Name     string       // Lean name (default: the Go name, Recv_Func for methods)
+	Uses     []useSpec    // functions of other generated modules it calls
+	Opaque   []string     // "GoType=LeanName": types whose values are only passed on; each is a Lean type parameter
+	Methods  []string     // "LeanName.Method=[mut ]func(..) R": abstract methods of opaque types (mut: returns (R, new value))
+	FloatAbs string       // float32 is this Lean type parameter with a decidable `<` (only < and > are translated)
+	FloatLE  bool         // … and a decidable `≤` (<= and >= are translated too)
+	CapVars  []string     // "v=c": cap(v) of the slice variable v is the int variable c; `v = append(v, ..)` updates c
+	Asserts  []string     // "name=Opaque:GoType": the comma-ok type assertion `p, ok := v.(GoType)` on a value of the opaque type is the abstract function name : Opaque → Option T
+	LogCalls []string     // expression statements whose text starts with one of these prefixes are logging call chains: EXPLICITLY not translated (no result is used)
 }
 
 // a fragment: the consecutive statements of one block from the one whose text starts with First to
@@ -82,6 +84,11 @@ type fragSpec struct {
 	EarlyReturn string   // text of the return statements inside the fragment that mean "the fragment ends here"
 	Case        string   // instead of First/Last: the whole body of the case clause with this label text
 	ErrLast     bool     // the fragment can fail: a `return .., err` inside (err not nil) is its error result
+	Locals      []string // "name type": variables the fragment itself declares that may be named in Results
+	Abstract    []string // statements `v.. := call` (full first-line text) that are NOT translated: the variables they
+	// define are parameters of the fragment, standing for the values they have after the statement
+	Field     string // instead of First/Last: the fragment is the EXPRESSION that initialises the field with this
+	FieldType string // name in the one composite literal of the function that sets it; its Go type is FieldType
 }
 
 var specs = []spec{
@@ -140,6 +147,96 @@ var specs = []spec{
 	// C18: a parameter struct whose Validate is integer range checks only
 	{File: "models/quantizer.go", Func: "Validate", Recv: "ProductQuantizerParameters", Module: "Validate", Ext: true,
 		Structs: []structSpec{{File: "models/quantizer.go", Name: "ProductQuantizerParameters"}}},
+	// third round (notes/T1ext.md, section 8): the FORMULAS.  float32 / float64 are the symbolic Go.FExpr (FloatSym): one
+	// constructor per Go operation, operands in source order, every conversion written; IEEE rounding is not interpreted
+	distSym("dotProductDistance", true), distSym("cosineDistance", true), distSym("haversineDistance", false),
+	{File: "distance/puredist.go", Func: "squaredEuclideanDistancePureGo", Module: "Distance", Ext: true, FloatSym: true},
+	{File: "distance/puredist.go", Func: "dotProductPureGo", Module: "Distance", Ext: true, FloatSym: true},
+	// the hybrid score of the three leaf searches and the weight default (nil -> 1)
+	{File: "shard/index/flat/flat.go", Func: "Search", Recv: "IndexFlat", Module: "Hybrid", Ext: true, FloatSym: true, Name: "flat_weight",
+		Structs: []structSpec{{File: "models/search.go", Name: "SearchVectorFlatOptions", Only: []string{"Weight"}}},
+		Frag: &fragSpec{First: "var weight float32", Last: "if options.Weight != nil {", Params: []string{"options models.SearchVectorFlatOptions"},
+			Locals: []string{"weight float32"}, Results: []string{"weight"}}},
+	{File: "shard/index/flat/flat.go", Func: "Search", Recv: "IndexFlat", Module: "Hybrid", Ext: true, FloatSym: true, Name: "flat_hybrid",
+		Frag: &fragSpec{Field: "HybridScore", FieldType: "float32", Params: []string{"weight float32", "dist float32"}}},
+	{File: "shard/index/vamana/vamana.go", Func: "Search", Recv: "IndexVamana", Module: "Hybrid", Ext: true, FloatSym: true, Name: "vamana_weight",
+		Structs: []structSpec{{File: "models/search.go", Name: "SearchVectorVamanaOptions", Only: []string{"Weight"}}},
+		Frag: &fragSpec{First: "weight := ", Last: "if query.Weight != nil {", Params: []string{"query models.SearchVectorVamanaOptions"},
+			Locals: []string{"weight float32"}, Results: []string{"weight"}}},
+	{File: "shard/index/vamana/vamana.go", Func: "Search", Recv: "IndexVamana", Module: "Hybrid", Ext: true, FloatSym: true, Name: "vamana_hybrid",
+		Structs: []structSpec{{File: "shard/index/vamana/distset.go", Name: "DistSetElem", Only: []string{"Distance"}}},
+		Frag:    &fragSpec{Field: "HybridScore", FieldType: "float32", Params: []string{"elem DistSetElem", "weight float32"}}},
+	{File: "shard/index/text/text.go", Func: "Search", Recv: "indexText", Module: "Hybrid", Ext: true, FloatSym: true, Name: "text_weight",
+		Structs: []structSpec{{File: "models/search.go", Name: "SearchTextOptions", Only: []string{"Weight"}}},
+		Frag: &fragSpec{First: "weight := ", Last: "if options.Weight != nil {", Params: []string{"options models.SearchTextOptions"},
+			Locals: []string{"weight float32"}, Results: []string{"weight"}}},
+	{File: "shard/index/text/text.go", Func: "Search", Recv: "indexText", Module: "Hybrid", Ext: true, FloatSym: true, Name: "text_hybrid",
+		Frag: &fragSpec{Field: "HybridScore", FieldType: "float32", Params: []string{"score float32", "weight float32"}}},
+	// the tf-idf score of one document: start value, the statements of the loop over the query terms (the loop itself ranges
+	// over a Go map: its order is not defined, the theorems quantify over it)
+	textScoreLocal("Search_score0", &fragSpec{First: "score := ", Last: "score := ", Locals: []string{"score float32"}, Results: []string{"score"}}),
+	textScoreLocal("Search_tf", &fragSpec{First: "tf := ", Last: "tf := ", Params: []string{"freq int", "docItem docCacheItem"},
+		Locals: []string{"tf float32"}, Results: []string{"tf"}}),
+	textScore("Search_idf", &fragSpec{First: "idf := ", Last: "idf := ", Params: []string{"index *indexText", "termSetItem *setCacheItem"},
+		Locals: []string{"idf float64"}, Results: []string{"idf"}}),
+	textScore("Search_scoreStep", &fragSpec{First: "freq := ", Last: "score += ",
+		Params:   []string{"index *indexText", "docItem docCacheItem", "term string", "termSetItem *setCacheItem", "score float32"},
+		Abstract: []string{"termSetItem, _ := index.setCache.Get(term)"}, Results: []string{"score"}}),
+	// the product quantiser: index arithmetic of its two tables and the two quantised distances (sums of table look-ups)
+	pqSpec("centroidDistIdx", "", nil), pqSpec("flatCentroidSlice", "", nil),
+	pqSpec("DistanceFromFloat", "pq_tableFromFloat", &fragSpec{First: "dists := make([]float32", Last: "for i := 0; i < pq.params.NumSubVectors; i++ {",
+		Params: []string{"pq *productQuantizer", "x []float32"}, Locals: []string{"dists []float32"}, Results: []string{"dists"}}),
+	pqSpec("DistanceFromFloat", "pq_lookupFromFloat", &fragSpec{First: "var dist float32", Last: "for i := 0; i < pq.params.NumSubVectors; i++ {",
+		Params: []string{"pq *productQuantizer", "dists []float32", "pointY *productQuantizedPoint"}, Locals: []string{"dist float32"}, Results: []string{"dist"}}),
+	pqSpec("DistanceFromPoint", "pq_lookupFromPoint", &fragSpec{First: "var dist float32", Last: "for i := 0; i < pq.params.NumSubVectors; i++ {",
+		Params: []string{"pq *productQuantizer", "pointX *productQuantizedPoint", "pointY *productQuantizedPoint"}, Locals: []string{"dist float32"}, Results: []string{"dist"}}),
+	// the binary quantiser: which of bit distance / float distance its two distance closures use
+	bqSpec("DistanceFromFloat"), bqSpec("DistanceFromPoint"),
+}
+
+// binary.go: the stored point behind the interface (type assertion) and `encode` (translated over bit patterns in
+// Generated/BitDist.lean) are abstract; the logging of the impossible case is explicitly left out
+func bqSpec(fn string) spec {
+	return spec{File: "shard/vectorstore/binary.go", Func: fn, Recv: "binaryQuantizer", Module: "BQDist", Ext: true, FloatSym: true,
+		Opaque: []string{"VectorStorePoint=VPoint"}, Asserts: []string{"asBinaryPoint=VPoint:*binaryQuantizedPoint"}, LogCalls: []string{"log.Warn()"},
+		Prims: []string{"binaryQuantizer.encode=func(vector []float32) []uint64"},
+		Structs: []structSpec{{File: "distance/distance.go", Name: "FloatDistFunc"}, {File: "distance/distance.go", Name: "BitDistFunc"},
+			{File: "shard/vectorstore/vectorstore.go", Name: "PointIdDistFn"},
+			{File: "shard/vectorstore/binary.go", Name: "binaryQuantizer", Only: []string{"threshold", "floatDistFn", "bitDistFn"}},
+			{File: "shard/vectorstore/binary.go", Name: "binaryQuantizedPoint", Only: []string{"Vector", "BinaryVector"}}}}
+}
+
+func pqSpec(fn, name string, fr *fragSpec) spec {
+	return spec{File: "shard/vectorstore/product.go", Func: fn, Recv: "productQuantizer", Module: "PQDist", Ext: true, FloatSym: true, Name: name,
+		Structs: []structSpec{{File: "models/quantizer.go", Name: "ProductQuantizerParameters"}, {File: "distance/distance.go", Name: "FloatDistFunc"},
+			{File: "shard/vectorstore/product.go", Name: "productQuantizer", Only: []string{"params", "distFn", "subVectorLen", "centroidDists", "flatCentroids"}},
+			{File: "shard/vectorstore/product.go", Name: "productQuantizedPoint", Only: []string{"Vector", "CentroidIds"}}},
+		Frag: fr}
+}
+
+// the float metrics of distance.go; the dot product implementation (a package variable: AVX kernel or pure Go loop) is abstract
+func distSym(fn string, usesDot bool) spec {
+	var prims []string
+	if usesDot {
+		prims = []string{"dotProductImpl=func(x, y []float32) float32"}
+	}
+	return spec{File: "distance/distance.go", Func: fn, Module: "Distance", Ext: true, FloatSym: true, Prims: prims,
+		Consts: []constSpec{{File: "distance/distance.go", Name: "degToRad", As: "degToRad"}, {File: "distance/distance.go", Name: "earthRadius", As: "earthRadius"}}}
+}
+
+// fragments of text.indexText.Search that touch neither the index nor a term's posting set
+func textScoreLocal(name string, fr *fragSpec) spec {
+	return spec{File: "shard/index/text/text.go", Func: "Search", Recv: "indexText", Module: "TextScore", Ext: true, FloatSym: true, Name: name,
+		Structs: []structSpec{{File: "shard/index/text/text.go", Name: "Term"}, {File: "shard/index/text/text.go", Name: "docCacheItem"}}, Frag: fr}
+}
+
+// fragments of text.indexText.Search: the roaring bitmap of a term is opaque (only its cardinality is read)
+func textScore(name string, fr *fragSpec) spec {
+	return spec{File: "shard/index/text/text.go", Func: "Search", Recv: "indexText", Module: "TextScore", Ext: true, FloatSym: true, Name: name,
+		Opaque: []string{"*roaring64.Bitmap=Bitmap"}, Methods: []string{"Bitmap.GetCardinality=func() uint64"},
+		Structs: []structSpec{{File: "shard/index/text/text.go", Name: "Term"}, {File: "shard/index/text/text.go", Name: "docCacheItem"},
+			{File: "shard/index/text/text.go", Name: "indexText", Only: []string{"numDocs"}}, {File: "shard/index/text/text.go", Name: "setCacheItem", Only: []string{"set"}}},
+		Frag: fr}
 }
 
 // the body of the ForEach callback of flat.IndexFlat.Search after the filter test: the bounded insertion of
@@ -153,7 +250,6 @@ var flatStepSpec = spec{File: "shard/index/flat/flat.go", Func: "Search", Recv: 
 	Frag: &fragSpec{First: "dist := distFn(point)", Last: "for i := len(res) - 1;", EarlyReturn: "return nil",
 		Params:  []string{"distFn vectorstore.PointIdDistFn", "point vectorstore.VectorStorePoint", "res []models.SearchResult", "res_cap int"},
 		Results: []string{"res", "res_cap"}}}
-
 
 // one arm of the operator switch of inverted.IndexInverted[T].Search: what it does to start / end / inclusive
 // (the generic value type T is opaque; toByteSortable and the %v text of a T are abstract)
@@ -197,12 +293,10 @@ var pagingSpec = spec{File: "shard/shard.go", Func: "SearchPoints", Recv: "Shard
 var sortStructs = []structSpec{{File: "models/point.go", Name: "PointAsMap"}, {File: "models/search.go", Name: "SearchResult", Only: []string{"DecodedData"}},
 	{File: "models/search.go", Name: "SortOption"}}
 
-
 var curateStructs = []structSpec{{File: "cluster/actions.go", Name: "FailedPoint"}}
 
 // the in-memory part of shard.IdCounter (the bucket and its keys are storage, not translated)
 var idCounterFields = []structSpec{{File: "shard/idcounter.go", Name: "IdCounter", Only: []string{"freeIds", "nextFreeId"}}}
-
 
 // a function outside the subset: reported, its whole module is not written, exit status 2
 type failure struct{ msg string }
@@ -212,12 +306,12 @@ func fail(pos token.Position, format string, a ...any) {
 }
 
 type tr struct {
-	fset   *token.FileSet
-	vars   map[string]Ty
-	outPtr string // pointer out-param name
-	recv   string
-	results []Ty // declared result types (error dropped)
-	dropErr bool
+	fset     *token.FileSet
+	vars     map[string]Ty
+	outPtr   string // pointer out-param name
+	recv     string
+	results  []Ty // declared result types (error dropped)
+	dropErr  bool
 	loopExit string // inside a range body: the expression `continue` evaluates to (the loop state tuple)
 }
 
@@ -312,9 +406,9 @@ func (t *tr) konst(n ast.Node, v uint64, ty Ty) string {
 }
 
 type val struct {
-	s   string
-	ty  Ty
-	c   uint64 // value when ty == TConst
+	s  string
+	ty Ty
+	c  uint64 // value when ty == TConst
 }
 
 func paren(s string) string {
